@@ -30,6 +30,9 @@ pub fn compact_alphabet(info: &TypeInfo) -> Vec<Op> {
         return vec![Op::U32];
     }
     let mut v = vec![Op::U32, Op::U64, Op::Fill(3), Op::Fill(9)];
+    if info.block_words.is_some() {
+        v.push(Op::Fill(8197)); // bulk request (fast paths for large fills), not a multiple of the word size
+    }
     match info.family {
         Family::Hc128 => v.push(Op::Fill(61)),
         Family::Isaac => v.push(Op::Fill(1021)),
